@@ -288,7 +288,7 @@ func EnumerateC20(t *testing.T, c C20Case, every int, es *EnumStats) ([]C20Findi
 		}
 		es.Stats.Steps += run.stats.Steps
 		es.Stats.Windows += run.stats.Windows
-		es.Stats.SimNanos += run.stats.SimNanos
+		es.Stats.SimSeconds += run.stats.SimSeconds
 		if len(rep.Violations) > 0 {
 			cp := *sc
 			cp.Tasks = []TaskSpec{{Ops: []OpSpec{fop}}}
